@@ -3,6 +3,7 @@ CONSTANTS
   K = 3
   MaxLeaves = 4
   MaxLeaves2 = 3
+  LargerFirstFrom = 99
   Cells1 <- AllCells
   Cells2 <- CellsSG
   Weights = {0, 1, 2}
